@@ -265,27 +265,46 @@ Definition simple_target_to_expr (t : node) : node :=
 Definition is_pat_target (t : node) : bool :=
   is_kind KArrayPat t || is_kind KObjectPat t || is_kind (KOther "Invalid") t.
 
-(** [hoist_target]: whatever in a member target is more than an identifier is evaluated once into
-    a temporary (the target is mentioned twice by the rewritten assignment). *)
-Definition hoist_target (c : config) (lhs : node) (span : sp) (a : acc) (p : pstate) : node * acc * pstate :=
-  match lhs with
+(** [hoist_key] / [hoist_target] / [hoist_super_target] / [hoist_simple_target]: whatever in a member
+    target is more than an identifier is evaluated once into a temporary (the target is mentioned
+    twice by the rewritten assignment); parentheses around a target are dropped. *)
+Definition hoist_key (c : config) (prop : node) (span : sp) (a : acc) (p : pstate) : node * acc * pstate :=
+  match prop with
+  | Node (K KComputed clo chi) [e] =>
+      if is_ident e || is_lit e then (prop, a, p)
+      else
+        let '(id, a2, p2) := get_temporal c e span IKExpr a p in
+        (Node (K KComputed clo chi) [match id with Some i => i | None => e end], a2, p2)
+  | _ => (prop, a, p)
+  end.
+
+Definition hoist_member (c : config) (t : node) (span : sp) (a : acc) (p : pstate) : option (node * acc * pstate) :=
+  match t with
   | Node (K KMember lo hi) [obj; prop] =>
       let '(obj', a1, p1) :=
         if is_ident obj || is_kind KThis obj then (obj, a, p)
         else
           let '(id, a1, p1) := get_temporal c obj span IKExpr a p in
           (match id with Some i => i | None => obj end, a1, p1) in
-      let '(prop', a2, p2) :=
-        match prop with
-        | Node (K KComputed clo chi) [e] =>
-            if is_ident e || is_lit e then (prop, a1, p1)
-            else
-              let '(id, a2, p2) := get_temporal c e span IKExpr a1 p1 in
-              (Node (K KComputed clo chi) [match id with Some i => i | None => e end], a2, p2)
-        | _ => (prop, a1, p1)
-        end in
-      (Node (K KMember lo hi) [obj'; prop'], a2, p2)
-  | _ => (lhs, a, p)
+      let '(prop', a2, p2) := hoist_key c prop span a1 p1 in
+      Some (Node (K KMember lo hi) [obj'; prop'], a2, p2)
+  | Node (K KSuperProp lo hi) [obj; prop] =>
+      let '(prop', a2, p2) := hoist_key c prop span a p in
+      Some (Node (K KSuperProp lo hi) [obj; prop'], a2, p2)
+  | _ => None
+  end.
+
+Fixpoint peel_parens (n : node) : node :=
+  match n with
+  | Node (K KParen _ _) [e] => peel_parens e
+  | _ => n
+  end.
+
+Definition hoist_target (c : config) (lhs : node) (span : sp) (a : acc) (p : pstate) : node * acc * pstate :=
+  let inner := if is_kind KParen lhs then peel_parens lhs else lhs in
+  match hoist_member c inner span a p with
+  | Some r => r
+  | None => (lhs, a, p)
   end.
 
 Definition assign_transform (c : config) (e : node) (p : pstate) : option node * pstate :=
